@@ -13,6 +13,7 @@
 ##############################################################################
 """Schema loader utility."""
 
+import http.client
 import os.path
 import re
 import sys
@@ -210,9 +211,10 @@ class BaseLoader(ABC):
                 # urllib.request.URLError has a particularly hostile str(), so
                 # we generally don't want to pass it along to the user.
                 self._raise_open_error(url, e.reason)  # pragma: no cover
-            except (OSError, ValueError) as e:
+            except (OSError, ValueError, http.client.HTTPException) as e:
                 # urlopen reports some unusable URLs (an embedded null
-                # byte, a malformed data: URL) as ValueError
+                # byte, a malformed data: URL) as ValueError, and a
+                # port that is not a number as http.client.InvalidURL
                 self._raise_open_error(url, str(e))
 
             try:
